@@ -11,6 +11,7 @@ from vf.verify import Contract, Case
 from vf.explore import cur
 from pony import orm
 from pony.orm import core
+from contracts import c09_collections as CL
 
 META = dict(
     level='other',
@@ -246,7 +247,7 @@ def _db_rows(M):
     return rows, sym, fk
 
 
-def run_history(M, seq):
+def run_history(M, seq, preload=False):
     """-> list of discrepancies between the database and the reference model at the commit / rollback points"""
     _reset_data(M)
     committed = State(); work = committed.copy()
@@ -263,6 +264,13 @@ def run_history(M, seq):
         # one db_session: up to and including the next END / FAIL
         try:
             with orm.db_session:
+                if preload:
+                    # everything is in the session beforehand: lookups by name are answered from the identity map, so NO query (hence no automatic flush) happens between
+                    # the operations and their pending changes meet each other in the session's bookkeeping instead of in the database
+                    for E in (M.X, M.Y, M.T): list(E.select())
+                    for x in M.X.select(): list(x.tags); list(x.friends); list(x.staff)
+                    for y in M.Y.select(): list(y.xs) if hasattr(y, 'xs') else None
+                    for t in M.T.select(): list(t.xs)
                 while i < len(seq):
                     o = seq[i]; i += 1
                     if o == 'END': break
@@ -303,9 +311,10 @@ def _case(cfg, values):
         hs, seed = histories(cfg['_tier'])
         bad = []
         for seq in hs[cfg['batch'] * 100:(cfg['batch'] + 1) * 100]:
-            r = run_history(M, seq)
-            if r: bad.append((' ; '.join(seq), r[0]))
-            reset()
+            for preload in (False, True):
+                r = run_history(M, seq, preload)
+                if r: bad.append((' ; '.join(seq), 'everything loaded beforehand' if preload else 'loaded on demand', r[0]))
+                reset()
         st['n'] = len(hs[cfg['batch'] * 100:(cfg['batch'] + 1) * 100])
         return [repr(b)[:600] for b in bad[:5]]
     return Case(call, {}, [], lambda run: reset(), lambda run: reset())
@@ -322,5 +331,8 @@ CONTRACTS = [
                            'pony.orm.core:Entity._save_deleted_', 'pony.orm.core:Set.add_m2m', 'pony.orm.core:Set.remove_m2m', 'pony.orm.core:commit', 'pony.orm.core:rollback',
                            'pony.orm.core:SessionCache.commit', 'pony.orm.core:SessionCache.close'], _cfgs, _case,
              [('database_equals_the_committed_reference_state_at_every_commit_and_rollback', lambda cfg, i, path: path.outcome == 'ret' and path.value == [] and path.state['n'] > 0)],
-             level='bounded', bound='exhaustive histories of <= 2 operations x ways of ending the session, all triples over 19 core operations (thorough: all 42); 1000 (thorough 150000) seeded random histories of <= 10 steps over 42 operations and 5 control steps'),
+             level='bounded', bound='each history run with objects loaded on demand (lookups flush) and with everything loaded beforehand (one flush at the end); exhaustive histories of <= 2 operations x ways of ending the session, all triples over 19 core operations (thorough: all 42); 1000 (thorough 150000) seeded random histories of <= 10 steps over 42 operations and 5 control steps'),
+    Contract('collection_histories', ['pony.orm.core:Set.__set__', 'pony.orm.core:SetInstance.add', 'pony.orm.core:SetInstance.remove', 'pony.orm.core:SetInstance.clear', 'pony.orm.core:Set.reverse_add',
+                                      'pony.orm.core:Set.reverse_remove', 'pony.orm.core:SessionCache._calc_modified_m2m', 'pony.orm.core:Set.add_m2m', 'pony.orm.core:Set.remove_m2m'],
+             CL.configs, CL.case, [('session_content_and_committed_rows_equal_the_set_the_operations_leave', CL.spec)], level='bounded', bound=CL.BOUND),
 ]
